@@ -9,7 +9,7 @@ RULE = ("documents from the abstract model (8 operators, quoted/unquoted/@var/@[
         "per-function scanner streams at every (length <= 48, boundary position) pair; byte soups for model-vs-implementation on rejected input; "
         "parse into a used tape. non-trivial = the parse succeeded with at least one container or operator token, or a scanner case with a boundary byte")
 TRUSTED = ["x86-64 SSE2 intrinsics modelled by their lane-wise meaning (first lane whose byte is in the compared set)"]
-ASSUMPTIONS = ["the abstract document -> expected tape function (props/textdoc.flatten) is the specification of 'mirrors the document'"]
+ASSUMPTIONS = ["'mirrors the document' is TextDoc.flatten (Coq, extracted and run on every generated document); the Python copy props/textdoc.flatten is checked against it on every run (stream spec_tie)"]
 
 
 def scanner_cases(ctx):
@@ -95,6 +95,44 @@ def run(ctx):
         if impl[base + k] != want:
             ctx.fail("tape-ne-doc", "layout %s: parse(%r) = %s, document says %s" % (st, data, impl[base + k][:400], want[:400]), [cases[k]], [impl[base + k]], want)
         ctx.count("layout_" + st)
+
+    # ---- the specification itself: Coq TextDoc.flatten / render / wf_doc run on the generated documents.
+    # Ties the Python oracle (textdoc.flatten, textdoc.render, the generator's restrictions) to the
+    # definitions that C01_parse_render is stated over, and the implementation to `flatten` directly.
+    import vlib
+    sp_cases, sp_meta = [], []
+    for di in range(ctx.scale(400, 6000)):
+        doc = td.gen_doc(rng, depth=rng.choice([1, 2, 3, 4]))
+        st = rng.choice(td.STYLES)
+        bom = rng.random() < 0.2
+        data, gaps = td.render_with_gaps(doc, rng, st, bom=bom)
+        sd = td.ser(doc)
+        sp_cases.append("spec.doc\t%s" % sd); sp_meta.append(("doc", doc, data, bom))
+        sp_cases.append("spec.render\t%s\t%d\t%s" % (sd, 1 if bom else 0, ",".join(hexs(g) for g in gaps))); sp_meta.append(("render", doc, data, bom))
+        sp_cases.append("tt.parse\t%s" % hexs(data)); sp_meta.append(("parse", doc, data, bom))
+    sp_model = vlib.run_model(sp_cases)
+    sp_impl = vlib.run_impl([c for c in sp_cases if c.startswith("tt.parse")])
+    ctx.evaluations += len(sp_cases)
+    ctx.streams["spec_tie"] = {"cases": len(sp_cases), "disagree": 0}
+    ii = 0
+    for k, (what, doc, data, bom) in enumerate(sp_meta):
+        m = sp_model[k] if k < len(sp_model) else "MISSING"
+        if what == "doc":
+            if m != "wf " + td.flatten(doc):
+                ctx.streams["spec_tie"]["disagree"] += 1
+                ctx.disagreements.append(("spec_tie", sp_cases[k], "python: wf " + td.flatten(doc)[:200], m[:200]))
+        elif what == "render":
+            if m != "gaps_ok " + hexs(data):
+                ctx.streams["spec_tie"]["disagree"] += 1
+                ctx.disagreements.append(("spec_tie", sp_cases[k][:300], "python render: " + hexs(data)[:200], m[:200]))
+        else:
+            o = sp_impl[ii]; ii += 1
+            spec = sp_model[k - 2]           # Coq flatten of the same document
+            want = "ok %d %s" % (1 if bom else 0, spec[3:]) if spec.startswith("wf ") else None
+            if want is not None and o != want:
+                ctx.fail("tape-ne-coq-flatten", "parse(%r) = %s but TextDoc.flatten says %s" % (data, o[:300], want[:300]), [sp_cases[k], sp_cases[k - 2]], [o], want)
+            ctx.nontrivial.add(hash(o) & 0xffffffffffff)
+    ctx.count("spec_tie_docs", len(sp_cases) // 3)
 
     # ---- reuse of a tape that held another document
     rc = []
